@@ -16,11 +16,45 @@ _VAR_INDEX = {}     # name -> index
 _VAR_META = {}      # name -> dict (kind etc.)
 
 
+_QUAD = {}          # var index -> Fraction c : the variable is an algebraic number with v*v == c (reduced on sight)
+
+
 def reset_vars():
     _VARS.clear()
     _VAR_INDEX.clear()
     _VAR_META.clear()
     _ATOMS.clear()
+    _QUAD.clear()
+
+
+def declare_quadratic(name, c):
+    """v*v == c is applied as a rewrite rule in every product (value preserving: it is an axiom of v)"""
+    _QUAD[_VAR_INDEX[name]] = Fraction(c)
+
+
+def _reduce_quad(t):
+    out = {}
+    for m, c in t.items():
+        nm = None
+        for pos, (nv, e) in enumerate(m):
+            q = _QUAD.get(-nv)
+            if q is not None and e >= 2:
+                if nm is None:
+                    nm = list(m)
+                c = c * q ** (e // 2)
+                nm[pos] = (nv, e % 2)
+        if nm is not None:
+            m = tuple(x for x in nm if x[1])
+        v = out.get(m)
+        if v is None:
+            out[m] = c
+        else:
+            v = v + c
+            if v == 0:
+                del out[m]
+            else:
+                out[m] = v
+    return out
 
 
 def var_names():
@@ -211,6 +245,11 @@ class Poly(object):
                         del t[m]
                     else:
                         t[m] = v
+        if _QUAD:
+            for m in t:
+                if any(e >= 2 and -nv in _QUAD for nv, e in m):
+                    t = _reduce_quad(t)
+                    break
         return Poly(t)
 
     def __pow__(self, n):
